@@ -343,8 +343,11 @@ def load_known(prop):
 
 def match_known(known, oracle, msg, sha):
     for k in known:
-        if k["sha"] and k["sha"] == sha:
-            return k
+        if k["sha"]:
+            # a finding pinned to one input matches that input only (so other failures of the same oracle are still reported)
+            if k["sha"] == sha and (not k["oracle"] or k["oracle"] == oracle):
+                return k
+            continue
         if k["oracle"] and k["oracle"] == oracle and (not k["match"] or re.search(k["match"], msg)):
             return k
     return None
@@ -383,7 +386,7 @@ def sha256_file(p):
     return hashlib.sha256(open(p, "rb").read()).hexdigest()
 
 
-def confirm_and_report(prop, fail, known, tier):
+def confirm_and_report(prop, fail, known, tier, from_corpus=False):
     """shrink, replay 3x, match known findings. -> 'violation' | 'known' | 'unreproduced'"""
     stage = fail.stage
     if fail.input_path is None:
@@ -392,7 +395,7 @@ def confirm_and_report(prop, fail, known, tier):
     total = stage.get("replays_total", 3)
     # shrink (out of process)
     shrunk = fail.input_path
-    if fail.fmt == "bin" and stage["kind"] == "gen" and not os.environ.get("VERIF_NO_SHRINK"):
+    if fail.fmt == "bin" and stage["kind"] == "gen" and not from_corpus and not os.environ.get("VERIF_NO_SHRINK"):
         import shrink
         budget = stage.get("shrink_seconds_" + tier, 90 if tier == "quick" else 300)
         try:
@@ -502,7 +505,7 @@ def main():
             failed, oracle, msg, _ = run_replay(st, f)
             if failed:
                 fl = Failure(st, oracle, msg, f, "json" if f.endswith(".json") else "bin")
-                r, _ = confirm_and_report(prop, fl, known, tier)
+                r, _ = confirm_and_report(prop, fl, known, tier, from_corpus=True)  # regression inputs are replayed as they are (no shrinking)
                 violations += r == "violation"
                 known_hits += r == "known"
     if corpus_n:
